@@ -183,6 +183,26 @@ def run(F, R, tier):
         rets = sorted(free & M.return_blocks(B))
         R.ob("define-index", "a new symbol takes index num_definitions, which is then incremented", idx_ok and bool(incs) and not rets,
              "index argument of Symbol::new: %s; returns reachable without incrementing num_definitions: %s" % (idx_txt, rets), F.loc(df))
+    # a slot index, once handed out, is never handed out again: the running count only grows (a function written in a block keeps
+    # the slot of a global it captured by reference; recycling the slots of an ended block lets a later binding share it), and
+    # the frame size reported to the compiler is that count
+    writes = []
+    for p_, g_ in sorted(F.fns.items()):
+        if not p_.startswith("compiler::symtab::") or H.body_of(g_) is None:
+            continue
+        for x in H.walk(H.body_of(g_)):
+            if x.get("k") in ("assign", "assignop") and H.strip(x["l"]).get("k") == "field" and H.strip(x["l"]).get("name") == "num_definitions":
+                writes.append((H.last(p_), x.get("op", "="), H.render(x["r"])))
+            if x.get("k") == "struct":
+                for fd in x.get("fields", []):
+                    if fd.get("name") == "num_definitions" and "e" in fd:
+                        writes.append((H.last(p_), "init", H.render(H.strip(fd["e"]))))
+    ok = bool(writes) and all((op == "+=" and r == "1") or (op == "init" and r == "0") for _, op, r in writes) and any(op == "+=" for _, op, _ in writes)
+    R.ob("slot-never-reused", "SymbolTable::num_definitions starts at 0 and is only ever incremented", ok, str(writes), F.loc(df) if df else "")
+    gn = F.fn("compiler::symtab::SymbolTable::get_num_definitions")
+    if R.anchor("SymbolTable::get_num_definitions", gn):
+        t_ = D.canon_text(H.body_of(gn))
+        R.ob("slot-never-reused", "the frame size a scope reports is the number of slots handed out", t_ == "self.num_definitions", t_, F.loc(gn))
     # ---- (b) pairing -----------------------------------------------------------------------------------------------------------
     cb = F.fn(C + "compile_block_statement")
     if R.anchor(C + "compile_block_statement", cb):
